@@ -238,9 +238,9 @@ def build_items(cases):
     from . import engine_build
     engine_build.build(False)
     from . import child
-    statics = child.map_children("c15", "observe_static", cases, timeout=120)
+    statics = child.map_children("c15", "observe_static", cases, timeout=120, confirm=True)
     jobs = [(k, pr) for k, c in enumerate(cases) if c.get("dynamic", False) for pr in wanted_probes(c)]
-    dyn = child.map_children("c15", "observe_probe", [dict(cases[k], probe=pr) for k, pr in jobs], timeout=60)
+    dyn = child.map_children("c15", "observe_probe", [dict(cases[k], probe=pr) for k, pr in jobs], timeout=60, confirm=True)
     items = []
     for c, o in zip(cases, statics):
         if "timeout" in o or "crash" in o or "error" in o:
